@@ -26,6 +26,7 @@ class Profile:
         self.extra_tag_vals = []
         self.extra_tag_keys = []
         self.extra_field_keys = []
+        self.grid = None  # None = gen.GRID
         self.allow_no_time = True
         self.min_ops, self.max_ops = 5, 25
         self.probe_every = 1  # probe after every n-th mutating op
@@ -88,14 +89,14 @@ def gen_write_op(rng, model, prof):
         op["via"] = "h"
         op["m"] = m
     if kind == "insert":
-        op["p"] = gen.gen_point(rng, prof.meas, prof.allow_no_time, extra_meas=prof.extra_meas, extra_tag_vals=prof.extra_tag_vals, extra_tag_keys=prof.extra_tag_keys, extra_field_keys=prof.extra_field_keys)
+        op["p"] = gen.gen_point(rng, prof.meas, prof.allow_no_time, extra_meas=prof.extra_meas, extra_tag_vals=prof.extra_tag_vals, extra_tag_keys=prof.extra_tag_keys, extra_field_keys=prof.extra_field_keys, grid=prof.grid)
         if not via_h and rng.random() < 0.15:
             op["m"] = rng.choice(names)
         if rng.random() < 0.3 and not via_h:
             op["compact"] = True
     elif kind == "insert_multiple":
         k = max(0, min(rng.choice([0, 1, 2, 3]), prof.max_rows - n))
-        op["ps"] = [gen.gen_point(rng, prof.meas, prof.allow_no_time, extra_meas=prof.extra_meas, extra_tag_vals=prof.extra_tag_vals, extra_tag_keys=prof.extra_tag_keys, extra_field_keys=prof.extra_field_keys) for _ in range(k)]
+        op["ps"] = [gen.gen_point(rng, prof.meas, prof.allow_no_time, extra_meas=prof.extra_meas, extra_tag_vals=prof.extra_tag_vals, extra_tag_keys=prof.extra_tag_keys, extra_field_keys=prof.extra_field_keys, grid=prof.grid) for _ in range(k)]
         if not via_h and rng.random() < 0.15:
             op["m"] = rng.choice(names)
         if rng.random() < 0.3 and not via_h:
@@ -161,7 +162,8 @@ def getter_probes(rng, model, prof):
         ops.append(dict(base, op="get_field_keys"))
         ops.append(dict(base, op="get_timestamps"))
         ops.append(dict(base, op="get_field_values", key=rng.choice(gen.FIELD_KEYS + ["nokey"])))
-        ops.append(dict(base, op="get_tag_values", keys=rng.choice([[], [], ["k"], ["k", "nokey"], ["j", "t"]])))
+        ops.append(dict(base, op="get_tag_values", keys=rng.choice([[], [], ["k"], ["k", "nokey"], ["j", "t"], ["k", "k"]]),
+                        keys_form=rng.choice(["list", "list", "tuple", "gen"])))
         if via == "h" or m is None:
             ops.append(dict({k: v for k, v in base.items()}, op="len"))
             ops.append(dict(base, op="iter"))
@@ -195,11 +197,11 @@ class HistoryRunner:
             while n_seed > 60:
                 # big databases are seeded in batches (also exercises insert_multiple with many points)
                 k = rng.choice([37, 64, 129])
-                ps = [gen.gen_point(rng, prof.meas, False, extra_meas=prof.extra_meas, extra_tag_vals=prof.extra_tag_vals, extra_tag_keys=prof.extra_tag_keys, extra_field_keys=prof.extra_field_keys) for _ in range(k)]
+                ps = [gen.gen_point(rng, prof.meas, False, extra_meas=prof.extra_meas, extra_tag_vals=prof.extra_tag_vals, extra_tag_keys=prof.extra_tag_keys, extra_field_keys=prof.extra_field_keys, grid=prof.grid) for _ in range(k)]
                 self._write(s, {"op": "insert_multiple", "ps": ps})
                 n_seed -= k
             for _ in range(max(0, n_seed)):
-                op = {"op": "insert", "p": gen.gen_point(rng, prof.meas, False, extra_meas=prof.extra_meas, extra_tag_vals=prof.extra_tag_vals, extra_tag_keys=prof.extra_tag_keys, extra_field_keys=prof.extra_field_keys)}
+                op = {"op": "insert", "p": gen.gen_point(rng, prof.meas, False, extra_meas=prof.extra_meas, extra_tag_vals=prof.extra_tag_vals, extra_tag_keys=prof.extra_tag_keys, extra_field_keys=prof.extra_field_keys, grid=prof.grid)}
                 self._write(s, op)
             for step in range(n_ops):
                 op = gen_write_op(rng, s.model, prof)
